@@ -57,11 +57,15 @@ def check_var(g, v, ctx, tag="output"):
         mech = f"mismatch:{step['op']}:{fn}:{r.split()[0]}{z}"
         if r.startswith("dtype") and step["op"] in ("tensordot", "matmul", "einsum") and v.np.dtype.kind in "iu" and v.np.dtype.itemsize < 8 and np.asarray(got).dtype.itemsize == 8:
             mech = "mismatch:int_contraction:dtype_promoted_to_64bit"
-        if step["op"] == "getitem" and r.startswith("shape"):
+        if step["op"] == "getitem" and (r.startswith("shape") or r.startswith("values")):
             from vf.checks.c12 import nonadjacent_int_list
             from vf.gen import dec_index
 
-            if nonadjacent_int_list(dec_index(step["p"]["idx"])):
+            # known finding only if the result is NumPy's with the advanced dimension kept in place
+            # (equal extents make this a values mismatch instead of a shape mismatch)
+            if nonadjacent_int_list(dec_index(step["p"]["idx"])) and any(
+                same(np.moveaxis(v.np, 0, k), got, v.inx, v.mag, eps=v.eps) is None for k in range(1, v.np.ndim)
+            ):
                 mech = "mismatch:getitem:int_and_list_nonadjacent"
         return ("mismatch", r, mech)
     return None
